@@ -9,6 +9,20 @@ CLAIMS = {
              note="programs quantifier = enumerated corpus, inputs quantifier = solver; tokens longer than the bound and rule sets outside the corpus are outside the claim. " + TRUSTED,
              technique="bounded model checking (cbmc, SAT) of the generated scanner against a generated bit-parallel reference matcher", design="4/C01"),
 }
+CLAIMS.update({
+ 'C02': dict(text="Every corpus rule set is generated under a matrix of table (-C, -Ce, -Cm, -Cem, -Cf, -CF, -Cfe, -CFe, -Ca*), 7/8-bit, -I/-B, %array/%pointer and API (non-reentrant C, reentrant C, c99) configurations; each generated file must compile, and the solver proves each equal to the same independent reference (E2 automaton walk, E1 yylex step), which implies pairwise equality. Unsupported combinations must be refused with the documented message (real binary).",
+             note="C++ class back end not verified (cbmc cannot parse <iostream>); quick tier checks a rotating third of the matrix per rule set; serialized tables are C15. " + TRUSTED,
+             technique="bounded model checking (cbmc, SAT) of scanners generated under each option set against one reference matcher", design="4/C02"),
+ 'C04': dict(text="Input bytes are unconstrained (0..255) in every query; dedicated rule sets match or do not match NUL and high bytes; E1 allows up to two NUL bytes at any position of the input in every table mode, -I and -B, %array, reentrant and c99; 7-bit scanners are proved equal on inputs < 128; refusal of 8-bit patterns in 7-bit scanners is observed on the real binary.",
+             note="NUL relative to buffer refills and pushed-back text is exercised by the C03/C08 harnesses. " + TRUSTED,
+             technique="bounded model checking (cbmc, SAT) of generated scanners on unconstrained bytes incl. NUL", design="4/C04"),
+ 'C05': dict(text="The start condition and the line-start flag are solver variables in every E1/E2 query over rule sets mixing %s/%x, <*>, lists and nested scopes: the rule selected (and the automaton state) must be the one the manual's activation rule gives, computed by the independent reference; the condition is unchanged by scanning.",
+             note="condition-stack histories (push/pop/top) are checked by the history harness when present in this revision (see evidence). " + TRUSTED,
+             technique="bounded model checking (cbmc, SAT) with symbolic start condition against a reference computing rule activation from the manual", design="4/C05"),
+ 'C06': dict(text="For rule sets using ^, $ and r/s (fixed and variable head and trail, competing rules, '|' actions) the solver proves for all inputs up to the bound and both values of the line-start flag: the rule selected competes with the length of r followed by s, yytext is the head of a valid split, the scan position is behind the head, and the line-start flag after the token is 'last byte was a newline'.",
+             note="rule sets for which flex prints 'dangerous trailing context' are excluded, as the property states. " + TRUSTED,
+             technique="bounded model checking (cbmc, SAT) of generated scanners with symbolic beginning-of-line flag against a reference with head/trail split", design="4/C06"),
+})
 NA = {}
 
 def main():
